@@ -12,7 +12,8 @@
 (***************************************************************************)
 EXTENDS Residency, Json
 
-CONSTANTS D
+CONSTANTS D,        \* number of enumerated operations (after the fixed prefix)
+          PreName   \* "none" | "saved": every program starts with  mark a; mark b; span c; save
 VARIABLES cs, r, hist, good
 
 Names == {"a", "b", "c"}
@@ -29,9 +30,22 @@ Ops ==
   {Del(ks, n) : ks \in {<<"a">>, <<"b", "c">>, <<"a", "b", "c">>}, n \in {0, BigPad}} \cup
   {[op |-> "save"], [op |-> "reload", ro |-> FALSE], [op |-> "reload", ro |-> TRUE]}
 
-MCInit == cs = C0 /\ r = R0 /\ hist = <<>> /\ good = TRUE
+Pre == IF PreName = "saved"
+       THEN <<K("mark", "a"), K("mark", "b"), [op |-> "span", k |-> "c", off |-> 4096, len |-> 512], [op |-> "save"]>>
+       ELSE <<>>
+
+RECURSIVE RunPre(_, _)
+RunPre(x, i) ==
+  IF i > Len(Pre) THEN x
+  ELSE LET y == CApply(x.xc, Grp, Pre[i], Threshold)
+           e == (Pre[i] @@ [res |-> y.res]) @@ [obs |-> CObs(y.st, Grp, Names)]
+           j == RStep(x.xr, Names, e)
+       IN RunPre([xc |-> y.st, xr |-> j.st, xg |-> x.xg /\ j.ok], i + 1)
+
+MCInit == LET x == RunPre([xc |-> C0, xr |-> R0, xg |-> TRUE], 1)
+          IN cs = x.xc /\ r = x.xr /\ hist = Pre /\ good = x.xg
 MCNext ==
-  /\ Len(hist) < D
+  /\ Len(hist) < D + Len(Pre)
   /\ \E o \in Ops :
        LET x == CApply(cs, Grp, o, Threshold)
            e == (o @@ [res |-> x.res]) @@ [obs |-> CObs(x.st, Grp, Names)]
@@ -50,6 +64,6 @@ PathsAgree == ~cs.ro => \A ks \in {<<"a">>, <<"b", "c">>, <<"a", "b", "c">>} :
                 CObs(CApply(cs, Grp, Del(ks, 0), Threshold + 10).st, Grp, Names)
                   = CObs(CApply(cs, Grp, Del(ks, 0), 0).st, Grp, Names)
 
-Emit == Len(hist) = D =>
+Emit == Len(hist) = D + Len(Pre) =>
   PrintT(<<"PROGRAM", ToJson([sys |-> "res", keys |-> <<"a", "b", "c">>, ops |-> hist])>>)
 =============================================================================
